@@ -308,6 +308,24 @@ let run_bytes op =
             String.concat " " (List.map (fun f -> Printf.sprintf "%s%d/%d/%s" (string_of_proto f.bf_id.fproto) (int_of_z f.bf_id.fidx) (int_of_z f.bf_pos) (string_of_buf f.bf_val)) fs)
             ^ " | " ^ string_of_buf pl)
       (bfactory st b)
+  | "bcmcompress" ->   (* stack, packet buffer, direction, strategy, rules: ContextManager.compress on byte-level Buffers *)
+    let st = stack_of (next ()) in let b = next_buf () in let d = dir_of (next ()) in
+    let strat = (match next () with "F" -> FIRST | _ -> BEST) in
+    let n = next_int () in let rules = repeat_read n read_brule in
+    show string_of_buf (bcm_compress (bfactory st) rules b d strat)
+  | "bcmdecompress" -> let s = next_buf () in let d = read_dir_opt () in
+    let n = next_int () in let rules = repeat_read n read_brule in
+    show string_of_buf (bcm_decompress rules s d)
+  | "bmatch" -> let pd = read_bpdesc () in let n = next_int () in let rules = repeat_read n read_brule in
+    "OK " ^ String.concat "," (show_gen rules (bmatch_packet_descriptor rules pd))
+  | "bparsesem" -> let b = next_buf () in     (* semantic CoAP header parser on a byte-level Buffer *)
+    show (fun (fs, n) ->
+            String.concat " " (List.map (fun f -> Printf.sprintf "%s%d/%d/%s" (string_of_proto f.bf_id.fproto) (int_of_z f.bf_id.fidx) (int_of_z f.bf_pos) (string_of_buf f.bf_val)) fs)
+            ^ " | " ^ string_of_int (int_of_z n))
+      (bparse_coap_semantic b)
+  | "bunparse" -> let n = next_int () in
+    let fl = repeat_read n (fun () -> let id = read_fid () in let v = next_buf () in (id, v)) in
+    show (fun l -> String.concat " " (List.map (fun (i, v) -> Printf.sprintf "%s%d/%s" (string_of_proto i.fproto) (int_of_z i.fidx) (string_of_buf v)) l)) (bcoap_unparse fl)
   | "bmatchschc" -> let s = next_buf () in let n = next_int () in let rules = repeat_read n read_brule in
     show (function None -> "-1" | Some r -> string_of_int (index_of r rules 0)) (bmatch_schc_loop rules s)
   | _ -> "BADOP " ^ op
